@@ -1,8 +1,8 @@
 SPECIFICATION Spec
 CONSTANTS
-  Elems = {1}
-  Workers = {1}
-  MaxT = 1
-  MaxSizes = {0}
-  Variant = "add_unguarded"
+  Elems = {1, 2}
+  Workers = {1, 2}
+  MaxT = 2
+  MaxSizes = {0, 1}
+  Variant = "code"
 INVARIANTS TypeOK AtMostOnce NeverEarly CancelHonoured CancelRemoves QuietDelivered QuietShutdown
